@@ -181,6 +181,12 @@ def cases(tier):
                               E(datetime.datetime(2021, 6, 7, 8, 9, 10)), E('x'), E(1.5)],
                              [E(datetime.date(2011, 12, 10)), E(None), E(datetime.date(2012, 11, 10)), E(None), E(datetime.time(23, 59, 59)),
                               E(None), E(datetime.datetime(1999, 12, 31, 23, 59, 59)), E(None), E(None)]]}
+    temporal_tbl2 = {'fields': [['a_d', 'date'], ['b_t', 'time'], ['c_dt', 'datetime'], ['d_s', 'string']],
+                     'rows': [[E(datetime.date(2001, 2, 3)), E(datetime.time(7, 8, 9)), E(datetime.datetime(2002, 3, 4, 5, 6, 7)), E('y')],
+                              [E(None), E(datetime.time(0, 0, 0)), E(None), E(None)]]}
+    for cfg in full:
+        out.append({'tables': [temporal_tbl, temporal_tbl2], 'cfg': cfg})
+        out.append({'tables': [temporal_tbl2, {'fields': [['z', 'string']], 'rows': [[E('x')]]}, temporal_tbl], 'cfg': cfg})
     for cfg in full:
         out.append({'tables': [temporal_tbl], 'cfg': cfg})
         out.append({'tables': [temporal_tbl], 'cfg': dict(cfg, revkeys=True)})
